@@ -7,6 +7,6 @@ CONSTANTS
   ExpHi = 5
   PairMax = 63
   What = "u1"
-INVARIANTS Nearest Bracket Monotone Symmetric Thresholds PrecRounding Satisfiable CodePasses DoubleRounded
+INVARIANTS Nearest Bracket Monotone Symmetric Thresholds PrecRounding Satisfiable CodePasses DoubleRounded FlushWitness
            IdealPasses TwoStepClassified Witnesses
 CHECK_DEADLOCK FALSE
